@@ -317,8 +317,8 @@ def main(argv):
     }
     if errors:
         evidence["coverage"]["harness_errors"] = [e[:500] for e in errors[:3]]
-    os.makedirs(os.path.join(common.VERIF_DIR, "evidence"), exist_ok=True)
-    with open(os.path.join(common.VERIF_DIR, "evidence", f"{prop}.json"), "w") as f:
+    os.makedirs(os.path.join(common.OUT_DIR, "evidence"), exist_ok=True)
+    with open(os.path.join(common.OUT_DIR, "evidence", f"{prop}.json"), "w") as f:
         json.dump(evidence, f, indent=1, sort_keys=True, default=common._json_default)
 
     for what, cnt in sorted(known.items()):
